@@ -965,15 +965,15 @@ def selftest():
 def subchecks(tier):
     q = tier == "quick"
     return [
-        Sub("axes", grid_case(), test_axes, 2400 if q else 100000,
+        Sub("axes", grid_case(), test_axes, 2400 if q else 60000,
             generic=GENERIC_GRIDS, shards=8 if q else 16),
         Sub("roundtrip", roundtrip_case(), test_roundtrip,
-            1200 if q else 40000, generic=GENERIC_RT, shards=4 if q else 16),
-        Sub("trim", trim_case(), test_trim, 800 if q else 20000,
+            1200 if q else 15000, generic=GENERIC_RT, shards=4 if q else 16),
+        Sub("trim", trim_case(), test_trim, 800 if q else 8000,
             generic=GENERIC_TRIM, shards=2 if q else 8),
         Sub("excision", excision_case(), test_excision,
-            600 if q else 20000, generic=GENERIC_EXC, shards=2 if q else 8),
+            600 if q else 10000, generic=GENERIC_EXC, shards=2 if q else 8),
         Sub("consumers", grid_case(long_hi=28, short_extra=3, consumers=True),
-            test_consumers, 320 if q else 6000, generic=GENERIC_CONS,
+            test_consumers, 320 if q else 4000, generic=GENERIC_CONS,
             shards=8 if q else 16, shrink_quick=True),
     ]
